@@ -57,6 +57,12 @@ func c01Record(col *collector, c c01Case) {
 	} else {
 		cl = append(cl, "default-branch")
 	}
+	if len(doc) > 4096 {
+		cl = append(cl, "doc>4KiB")
+	}
+	if len(doc) > 65536 {
+		cl = append(cl, "doc>64KiB")
+	}
 	if c.NoIter {
 		cl = append(cl, "path:slice")
 	} else {
@@ -135,10 +141,15 @@ func c01Gen() *rapid.Generator[c01Case] {
 			maxNodes = 120
 		}
 		var f model.Forest
-		if rapid.IntRange(0, 14).Draw(t, "deep") == 0 {
+		if d := rapid.IntRange(0, 29).Draw(t, "deep"); d <= 1 {
 			f = genDeepForest(names, false).Draw(t, "deepForest")
+		} else if d == 2 {
+			f = genWideForest(sampled(poolTiny)).Draw(t, "wideForest") // documents beyond 4 KiB / 64 KiB
 		} else {
 			f = genForest(forestParams{maxNodes: maxNodes, maxDepth: 12, names: names}).Draw(t, "forest")
+		}
+		if rapid.IntRange(0, 39).Draw(t, "long") == 0 {
+			withLongName(t, f)
 		}
 		sp := genSpelling(f.HeadingOK()).Draw(t, "spelling")
 		if f.Depth() > 16 && sp.Unit > 3 {
